@@ -18,6 +18,29 @@ static void clear_flags(cJSON *t, int depth)
     t->type &= 0xFF;
 }
 
+/* ["K", fold]: two objects whose single keys differ in one byte: equal under case-insensitive comparison exactly when the bytes fold to the
+ * same byte, under case-sensitive comparison exactly when they are the same byte; the same for lookups by name */
+static long fold_pairs;
+static void do_fold(const jv *v)
+{
+    const jv *t = jv_at(v, 1); unsigned fold[256], b1, b2; cJSON *a, *b; char ka[8] = "x?y", kb[8] = "x?y";
+    if (!t || t->n != 255) return;
+    for (b1 = 1; b1 <= 255; b1++) fold[b1] = (unsigned)jv_int(t->e[b1 - 1]);
+    al_case_begin();
+    a = cJSON_CreateObject(); b = cJSON_CreateObject(); cJSON_AddItemToObjectCS(a, ka, cJSON_CreateNumber(1)); cJSON_AddItemToObjectCS(b, kb, cJSON_CreateNumber(1));
+    if (!VD_TRY()) { vd_violation("memory fault while comparing keys that differ in one byte"); return; }
+    for (b1 = 1; b1 <= 255; b1++) { vd_tick(); for (b2 = 1; b2 <= 255; b2++) {
+        int ci, cs; ka[1] = (char)b1; kb[1] = (char)b2; fold_pairs++;
+        ci = cJSON_Compare(a, b, 0) != 0; cs = cJSON_Compare(a, b, vb_truthy(1, b2)) != 0;
+        if (ci != (fold[b1] == fold[b2])) { vd_violation("objects whose keys differ only in the bytes %02x / %02x compare %s case-insensitively", b1, b2, ci ? "equal" : "different"); if (VD.violations > 20) goto out; }
+        if (cs != (b1 == b2)) { vd_violation("objects whose keys differ only in the bytes %02x / %02x compare %s case-sensitively", b1, b2, cs ? "equal" : "different"); if (VD.violations > 20) goto out; }
+        if ((cJSON_GetObjectItem(a, kb) != NULL) != (fold[b1] == fold[b2]) || (cJSON_GetObjectItemCaseSensitive(a, kb) != NULL) != (b1 == b2)) { if (strstr("C06", VD.prop)) vd_violation("lookup of a name that differs from the key only in the bytes %02x / %02x gives the wrong answer", b1, b2); else VD.by_kind[0]++; }
+    } }
+out:
+    VD_END();
+    ka[1] = kb[1] = '?'; cJSON_Delete(a); cJSON_Delete(b);
+}
+
 int vd_cmp_main(int argc, char **argv);
 int vd_cmp_main(int argc, char **argv)
 {
@@ -31,6 +54,7 @@ int vd_cmp_main(int argc, char **argv)
         if (len <= 0) continue;
         if (line[0] != '"') { if (VD.passthrough) fputs(line, VD.passthrough); continue; }
         copy = strdup(line); jv_reset(); v = jv_parse_line(line);
+        if (v && v->t == JV_ARR && v->n == 2 && jv_is_str(jv_at(v, 0), "K")) { VD.curline = copy; VD.cases++; do_fold(v); VD.nontrivial++; VD.curline = NULL; free(copy); continue; }
         if (!v || v->t != JV_ARR || v->n < 5 || !jv_is_str(jv_at(v, 0), "C")) { if (VD.passthrough) fputs(copy, VD.passthrough); free(copy); continue; }
         VD.curline = copy; VD.cases++;
         al_case_begin(); cm_case_begin();
